@@ -43,8 +43,21 @@ def build_geo(spec, repo):
             g.snap_columns_to_layers(op[1])
         elif k == 'snap_nearest':
             g.snap_columns_to_nearest_layers()
+        elif k == 'copy_layers':
+            copy_layers(g, op[1], op[2])
         else:
             raise ValueError('unknown geometry op %r' % (k,))
+    return g
+
+
+def copy_layers(g, dz, ztop):
+    """mulgrid.copy_layers_from: the layer structure of g is replaced by layers of thicknesses dz below elevation
+    ztop (taken from a helper geometry of the same naming convention); column surfaces keep their elevations, so a
+    geometry built with the default (flat) surface ends up with its ground BELOW the top of the new structure."""
+    from mulgrids import mulgrid
+    helper = mulgrid().rectangular([1.], [1.], list(dz), convention=g.convention, atmos_type=g.atmosphere_type,
+                                   origin=[0., 0., float(ztop)])
+    g.copy_layers_from(helper)
     return g
 
 
@@ -254,6 +267,15 @@ def gen_pair(rng, family, repo, ta=None, tb=None, thorough=False, shipped=None):
         g = build_geo(a, repo)
         names = [l.name for l in g.layerlist[1:]]
         b['ops'].append(['refine_layers', [] if rng.random() < 0.3 else subset_names(rng, names), rng.choice([2, 2, 3])])
+        if rng.random() < 0.4:
+            # instead: the copy takes over a TALLER layer structure (copy_layers_from); its ground stays where it was
+            b = copy.deepcopy(a); b['base']['atmos_type'] = tb
+            ztop = float(g.layerlist[0].bottom); zbot = float(g.layerlist[-1].bottom)
+            up = rng.choice([0.2, 0.5, 1.0]) * (ztop - zbot)
+            nz = rng.randint(2, 8)
+            dz = rnd_sizes(rng, nz, 0.5 * (ztop + up - zbot) / nz, 1.5 * (ztop + up - zbot) / nz)
+            b['ops'].append(['copy_layers', dz, ztop + up])
+            if rng.random() < 0.3: b = surface_op(rng, b, repo, frac=0.4, snap=0.3)
         if rng.random() < 0.5:
             a, b = b, a; a['base']['atmos_type'] = ta; b['base']['atmos_type'] = tb
     elif family == 'shift':
@@ -329,6 +351,14 @@ def moves(rng, g):
     return out
 
 
+def relayer_move(rng, g):
+    """in-place edit: the geometry takes over a taller layer structure (copy_layers_from)"""
+    ztop = float(g.layerlist[0].bottom); zbot = float(g.layerlist[-1].bottom)
+    up = rng.choice([0.3, 0.6]) * (ztop - zbot)
+    nz = rng.randint(2, 7)
+    return [['copy_layers', rnd_sizes(rng, nz, 0.5 * (ztop + up - zbot) / nz, 1.5 * (ztop + up - zbot) / nz), ztop + up]]
+
+
 def snap_moves(rng, g):
     """a two-step in-place edit: surfaces put exactly on layer boundaries / just above, then a snapping method"""
     bottoms = [float(l.bottom) for l in g.layerlist[1:]]
@@ -354,5 +384,6 @@ def apply_ops(g, ops):
             g.setup_block_name_index(); g.setup_block_connection_name_index()
         elif k == 'snap': g.snap_columns_to_layers(op[1])
         elif k == 'snap_nearest': g.snap_columns_to_nearest_layers()
+        elif k == 'copy_layers': copy_layers(g, op[1], op[2])
         else: raise ValueError('unknown in-place op %r' % (k,))
     return g
